@@ -29,7 +29,7 @@ func (c20) Budget(tier string) (int, int) {
 	if tier == "thorough" {
 		return 400000, 900
 	}
-	return 16000, 40
+	return 12000, 90
 }
 func (c20) Rule() string {
 	return fmt.Sprintf("seeded histories on one ValueReader and one Buffer (plus fresh ones): validate / skip / traverse / generically decode documents of adversarial shape - one huge container (object or array) at any depth followed by n small siblings of either kind, escaped strings and keys at every nesting level and in every child, deep nesting (to 10,000), megabyte strings, wide scalar arrays, generated trees up to 400 KB - each shape at growing sizes (x1, x10, x100: a super-linear term crosses the bound at the smallest size that shows it), and 'one large document, then up to 20,000 small ones' (succeeding, failing, typed entry points on null) on the same reader. Failing calls (truncated, overflow, 10,001+ deep) sit between the others. Pool policy: hit whenever possible, eviction only between top-level calls. Measure: runtime.MemStats.TotalAlloc around each call at GOMAXPROCS=1. Oracle, evaluated at every prefix of the history: allocated <= %d B x input bytes + %d B x calls. Non-trivial: the history has >= 2 calls on the shared reader/buffer or a document >= 10 KB; distinct = distinct hashes of (operation, shape, size class, outcome) sequences.", c20K, c20C)
